@@ -12,6 +12,7 @@ import (
 	"fmt"
 
 	"github.com/tuneinsight/lattigo/v6/ring"
+	"github.com/tuneinsight/lattigo/v6/ring/ringqp"
 	"github.com/tuneinsight/lattigo/v6/utils/sampling"
 
 	"verif/engine"
@@ -157,5 +158,81 @@ func constructionLevelScenario(ch chainT, depth int) engine.Scenario {
 			c.Cover("construction-level-kind", k.name)
 		}
 		c.Outcome(name, k.name, l0, envA.off)
+	}}
+}
+
+// ringqpConstructionLevelScenario: ringqp.UniformSampler built on a lowered ringqp view (every (lq0, lp0)), read through
+// AtLevel at every (lq, lp) incl. -1 and incl. raised levels; bit-exact against the specification sampler.
+func ringqpConstructionLevelScenario(depth int) engine.Scenario {
+	name := "construction-level/ringqp"
+	return engine.Scenario{Name: name, Bound: -1, Fn: func(c *engine.Chooser) {
+		modQ, modP := mixedChain().mod, pChain()
+		rQ, rP := ringOf(modQ), ringOf(modP)
+		lq0 := c.Choose(len(modQ), "construction-levelQ")
+		lp0 := c.Choose(len(modP), "construction-levelP")
+		qp := ringqp.Ring{RingQ: rQ, RingP: rP}
+		st := &stream{bgSeed: 9090}
+		envA, envM := newPRNG(st), newPRNG(st)
+		s := ringqp.NewUniformSampler(envA, qp.AtLevel(lq0, lp0))
+		mQ, mP := &refUniform{src: envM}, &refUniform{src: envM}
+		n := 1 + c.Choose(depth, "length")
+		for step := 0; step < n; step++ {
+			lq := c.Choose(len(modQ)+1, "levelQ+1") - 1
+			lp := c.Choose(len(modP)+1, "levelP+1") - 1
+			if lq < 0 && lp < 0 {
+				c.Skip("no part requested")
+				return
+			}
+			view := !(lq == lq0 && lp == lp0) || c.Choose(2, "through-view") == 1
+			newp := c.Choose(2, "ReadNew") == 1
+			smp := s
+			if view {
+				smp = s.AtLevel(lq, lp)
+			}
+			var got ringqp.Poly
+			if newp {
+				got = smp.ReadNew()
+			} else {
+				if lq >= 0 {
+					got.Q = rQ.AtLevel(lq).NewPoly()
+				}
+				if lp >= 0 {
+					got.P = rP.AtLevel(lp).NewPoly()
+				}
+				smp.Read(got)
+			}
+			ctx := fmt.Sprintf("ringqp sampler built at (%d,%d), read at (%d,%d) step %d", lq0, lp0, lq, lp, step)
+			if lq >= 0 {
+				if got.Q.Level() != lq {
+					c.Fail("C17/construction-level/ringqp/polynomial-level", "%s: Q part of level %d", ctx, got.Q.Level())
+					return
+				}
+				if ok, why := rowsEqual(got.Q.Coeffs, mQ.sample(modQ, lq), lq); !ok {
+					c.Fail("C17/construction-level/ringqp/differs-from-specification-sampler", "%s Q part: %s", ctx, why)
+					return
+				}
+			}
+			if lp >= 0 {
+				if got.P.Level() != lp {
+					c.Fail("C17/construction-level/ringqp/polynomial-level", "%s: P part of level %d", ctx, got.P.Level())
+					return
+				}
+				if ok, why := rowsEqual(got.P.Coeffs, mP.sample(modP, lp), lp); !ok {
+					c.Fail("C17/construction-level/ringqp/differs-from-specification-sampler", "%s P part: %s", ctx, why)
+					return
+				}
+			}
+			if envA.off != envM.off {
+				c.Fail("C17/construction-level/ringqp/bytes-consumed", "%s: %d vs %d bytes", ctx, envA.off, envM.off)
+				return
+			}
+			c.State("construction-level-ringqp", lq0, lp0, envA.off, mQ.ptr, mP.ptr)
+			if lq > lq0 || lp > lp0 {
+				c.Cover("construction-level-ringqp", "raised")
+			} else {
+				c.Cover("construction-level-ringqp", "not-raised")
+			}
+		}
+		c.Outcome(name, lq0, lp0, envA.off)
 	}}
 }
